@@ -132,6 +132,15 @@ def topUpLoop (author : Nat) : Nat → List Nat → List (List Nat) → List (Li
       | none => .panic
       | some (c, cq') => topUpLoop author k cq' (appendAt apc c author) (appendAt cpa author c)  -- :124-126
 
+/-- lottery.go:111-113 `if candidatesQueue.Len() == 0 { candidatesQueue = getRandomizedCandidates() }`: the next
+permutation of the stream becomes the queue (`none`: stream exhausted or not a list of candidate indexes) -/
+def refillQueue (n : Nat) (cq : List Nat) (p2 : List (List Nat)) : Option (List Nat × List (List Nat)) :=
+  if cq = [] then
+    match p2 with
+    | [] => none
+    | p :: ps => if p.all (fun c => decide (c < n)) then some (p, ps) else none
+  else some (cq, p2)
+
 /-- lottery.go:101-128, `todo` = the author indexes still to visit (`author := 0; author < len(candidates)`) -/
 def appendLoop (n : Nat) : List Nat → List Nat → List (List Nat) → List (List Nat) → List (List Nat) →
     Res (List (List Nat) × List (List Nat))
@@ -141,13 +150,7 @@ def appendLoop (n : Nat) : List Nat → List Nat → List (List Nat) → List (L
     if value = [] then appendLoop n todo cq p2 apc cpa           -- :102-105 !ok
     else if value.length ≥ CandidatesPerAuthor then appendLoop n todo cq p2 apc cpa   -- :107
     else
-      let refill : Option (List Nat × List (List Nat)) :=        -- :111-113
-        if cq = [] then
-          match p2 with
-          | [] => none
-          | p :: ps => if p.all (fun c => decide (c < n)) then some (p, ps) else none
-        else some (cq, p2)
-      match refill with
+      match refillQueue n cq p2 with                             -- :111-113
       | none => .badInput
       | some (cq1, p2') =>
         match topUpLoop author (CandidatesPerAuthor - value.length) cq1 apc cpa with
